@@ -3,7 +3,7 @@ sys.path.insert(0, os.path.dirname(os.path.abspath(__file__)))
 import seqfam, vlib
 
 WIN = os.path.join(vlib.VERIF, "spec", "win")
-ASSUME = ["STATETTL unset (no key state is reaped)", "single producer, rows fed in lock-step (one row fully processed before the next), plus bursts of 70-130 rows against a held window goroutine",
+ASSUME = ["STATETTL unset, except in the scenarios that keep a key active across several TTL periods (a trace in which the driver itself paused longer than 0.7 TTL is void)", "single producer, rows fed in lock-step (one row fully processed before the next), plus bursts of 70-130 rows against a held window goroutine",
           "window output buffer never overflows", "results observed through a synchronous sink"]
 NIL = "<NIL>"
 
@@ -73,6 +73,14 @@ def run(tier):
                                ("sum(v) <= 2", {"o": "cmp", "fn": "sum", "arg": {"k": "col", "c": "v"}, "op": "<=", "lit": 20000})])
         sc["sql"] += " HAVING " + txt
         sc["meta"]["having"] = ast
+        scen.append(sc)
+    # STATETTL: a key that keeps receiving rows (gaps well below the TTL) keeps its partial batch, however long it takes to fill
+    for _ in range(3 if quick else 20):
+        ng = rng.choice([1, 2])
+        n = rng.choice([7, 8])
+        sc = scenario(n, [("k%d" % (i % ng),) for i in range(n * ng + 2)], rng, "mix")
+        sc["sql"] += " WITH (STATETTL='1s')"
+        sc.update(gap_ms=rng.choice([180, 250]) if ng == 2 else rng.choice([300, 400]), ttl_ms=1000, span=ng)
         scen.append(sc)
     # bursts: the producer outruns the counting-window goroutine (held at its first row) by more rows than the window's
     # input queue holds (50 by default): every row still counts, in order
